@@ -274,7 +274,7 @@ pub fn check(c: &Case) -> Outcome {
 fn decaying_real_spec(nmax: usize) -> BoxedStrategy<ProbSpec> {
     // linear homogeneous, components never cross zero: independent real modes, optional warp
     (warp(0.5, 6.0), proptest::collection::vec((fr(-1.5, 0.15), fr(0.2, 2.0), any::<bool>()), 1..=nmax))
-        .prop_map(|(warp, v)| ProbSpec { blocks: v.into_iter().map(|(lam, u, s)| Block::Real { lam, u0: if s { u } else { -u } }).collect(), warp, mix: None })
+        .prop_map(|(warp, v)| ProbSpec { blocks: v.into_iter().map(|(lam, u, s)| Block::Real { lam, u0: if s { u } else { -u } }).collect(), warp, mix: None, mag2: 0 })
         .boxed()
 }
 
